@@ -378,6 +378,25 @@ def main():
         broken.append({"kind": "theorem", "name": "Props/%s.v" % pid, "detail": pr["reason"],
                        "error": pr.get("error", "")[-1200:]})
 
+    # 2b. thorough tier: re-check the compiled proofs of this property and everything they depend on
+    # with the independent checker, and read the axioms it reports
+    coqchk = None
+    if tier == "thorough" and pr["ok"] and not a.replay:
+        t1 = time.time()
+        rc, out = sh("timeout 1500 coqchk -silent -o -Q . OV OV.Props.%s" % pid, cwd=COQ, timeout=1530)
+        m = re.search(r"\* Axioms:(.*?)\n\s*\n\* Constants/Inductives relying on type-in-type:(.*?)\n\s*\n\* Constants/Inductives relying on unsafe \(co\)fixpoints:(.*?)\n\s*\n\* Inductives whose positivity is assumed:(.*?)\n", out, re.S)
+        coqchk = {"rc": rc, "wall_s": round(time.time() - t1, 1)}
+        if rc != 0 or not m:
+            broken.append({"kind": "coqchk", "name": "coqchk OV.Props.%s" % pid, "detail": out[-1200:]})
+        else:
+            axs = [x.strip() for x in m.group(1).replace("<none>", "").split("\n") if x.strip()]
+            coqchk["axioms"] = axs
+            bad = [x for x in axs if x.split(" ")[0].split(".")[-1] not in ALLOWED_AXIOMS and x.split(" ")[0] not in ALLOWED_AXIOMS]
+            unsafe = [g.strip() for g in (m.group(2), m.group(3), m.group(4)) if g.strip() and g.strip() != "<none>"]
+            if bad or unsafe:
+                broken.append({"kind": "coqchk", "name": "coqchk OV.Props.%s" % pid, "detail": "axioms outside the allow-list or unsafe constructs: %s %s" % (bad, unsafe)})
+        log.append("coqchk rc=%d (%.1fs)" % (rc, time.time() - t1))
+
     # 3. harness
     ok, hout = build_harness(pid, log)
     cases, verdicts, outs, eval_errors = [], [], {}, []
@@ -507,6 +526,7 @@ def main():
                                "oracle_failures_unknown": len(viol),
                                "oracle_failures_known": sum(len(v) for v in known_hit.values())},
             "translators": [{"name": t[0], "ok": t[1]} for t in tr],
+            "coqchk": coqchk,
             "known_findings_reproduced": sorted(known_hit.keys()),
             "explanation": meta.get("explanation", ""),
             "log": log,
